@@ -1,3 +1,5 @@
 SPECIFICATION Spec
-INVARIANT TypeOK NoOob RunInflationary RunIdempotent FreshIsModel PurgeRerunSame
+INVARIANT TypeOK Laws
 CHECK_DEADLOCK FALSE
+CONSTANT MaxDepth = 6
+CONSTRAINT Bounded
